@@ -684,7 +684,9 @@ pub fn strategy(max_rounds: usize) -> impl Strategy<Value = RCase> {
   let via = prop_oneof![3 => Just(Via::Method), 1 => Just(Via::Maybe), 1 => Just(Via::Resolve)];
   let key = (0u8..NTY, prop_oneof![3 => Just(0u8), 2 => 1u8..PLAIN_NAMES, 2 => PLAIN_NAMES..NNAMES]);
   let shape = (proptest::collection::vec(proptest::collection::vec(rereg_s(), 1..=max_rounds), 1..=2), proptest::collection::vec(via, 1..=6));
-  let gate = (prop_oneof![2 => Just(0u8), 5 => Just(1u8), 2 => Just(2u8)], 1u16..300, 0u8..3, prop_oneof![2 => Just(0u8), 1 => 1u8..40]);
+  // (the waiting gate first: proptest shrinks towards the first alternative, and a shrunk case
+  // with the waiting gate reproduces deterministically)
+  let gate = (prop_oneof![5 => Just(1u8), 2 => Just(0u8), 2 => Just(2u8)], 1u16..300, 0u8..3, prop_oneof![2 => Just(0u8), 1 => 1u8..40]);
   let misc = (prop_oneof![1 => Just(0u8), 2 => 2u8..12], any::<bool>(), 0u8..40);
   (prop_oneof![3 => Just(false), 1 => Just(true)], key, rereg_s(), prop_oneof![3 => Just(true), 1 => Just(false)], shape, gate, misc).prop_map(|(global, (ty, name), first, warm, (writers, readers), (gate, dwell_us, dwell_kind, factory_us), (bystander, hold, gap))| RCase {
     global,
